@@ -70,6 +70,30 @@ def check_message(ctx, case):
                  {"codes": sorted(got_styles[i]), "output": outs["ansi.format"]}, sig="per-character-style")
     if not outs["ansi.format"].endswith("\x1b[0m") and styles and styles[-1]:
         ctx.fail("message", "C11.sgr", case, "styled run closed by ESC[0m", outs["ansi.format"], sig="unclosed")
+    # the same message with a style passed for this single call: the text outside any tag carries that style
+    base = frozenset([35, 4])
+    try:
+        from clikit.api.formatter import Style
+
+        single = ansi.format(src, Style().fg("magenta").underlined())
+        text1, styles1 = markup.parse_sgr(single)
+    except ValueError:
+        ctx.fail("message", "C11.sgr", case, "only SGR sequences", single, sig="foreign-escape")
+        return
+    except Exception as e:
+        ctx.fail("message", "C11.same-text", case, plain, src, exc=e)
+        return
+    again = ansi.format(src)
+    if again != outs["ansi.format"]:
+        ctx.fail("message", "C11.sgr", case, outs["ansi.format"], {"format(text) after format(text, style)": again},
+                 sig="single-call-style-outlives-the-call")
+    if text1 != plain:
+        ctx.fail("message", "C11.same-text", case, plain, {"ansi.format(text, style) stripped": text1}, sig="ansi-single-call")
+    elif styles1 != [c or base for c in styles]:
+        want1 = [c or base for c in styles]
+        i = [j for j in range(len(want1)) if styles1[j] != want1[j]][0]
+        ctx.fail("message", "C11.sgr", case, {"char": i, "codes": sorted(want1[i])},
+                 {"codes": sorted(styles1[i]), "output": single}, sig="single-call-per-character-style")
     # through outputs: decorated vs undecorated
     for label, fmt, decorated in (("plain", PlainFormatter(), False), ("ansi-unforced", AnsiFormatter(), False),
                                   ("ansi-forced", AnsiFormatter(forced=True), True)):
